@@ -186,6 +186,14 @@ def _apply_rule(prog, chk, R, app, amp, sp, KS):
     chk.ob('R01.5', app, inner[0].get('ln', app.ln), ib == two_q and istride is None, 'inner loop runs over [0, 2^q) with stride 1 (found bound %s)' % KT.show(ib), key='apply:inner-bound')
     # symbolic execution of one iteration of the inner body with read-after-write semantics
     body = inner[0]['body']['body'] if inner[0]['body']['k'] == 'block' else [inner[0]['body']]
+    # linearity: the update of a pair is unconditional — no branch, skip or early exit inside the loop nest (a "fast path" that
+    # skips pairs by looking at the amplitudes makes the gate non-linear)
+    ctl = [x for x in SX.walk(outer['body'], into_lambdas=False) if x['k'] in ('if', 'continue', 'break', 'return', 'switch', 'while', 'do', 'cond', 'goto')]
+    chk.ob('R01.2', app, (ctl[0].get('ln') if ctl else outer.get('ln')) or app.ln, not ctl,
+           'every pair of the sweep is updated unconditionally: the loop nest contains no branch, skip or early exit (found %s)' %
+           [SX.show(x.get('c'))[:50] if x['k'] in ('if', 'cond') else x['k'] for x in ctl][:3], key='apply:unconditional')
+    if ctl:
+        return
     env_t = dict(F.env)
     env_t[ov['id']] = KT.S('i')
     env_t[iv['id']] = KT.S('j')
@@ -391,6 +399,8 @@ def _dispatch_rule(prog, chk, R, gates):
     chk.count('built-in gate table entries', len(keys), 8)
     ev = R.ev_method('eval')
     g = prog.cfg(ev)
+    from ..kcanon import Canon
+    canon = Canon(prog, ev)
     branches = {}
     for node in g.calls(lambda e: R.is_sim_call(e) and SX.short(e['callee']) in gates):
         nm = None
@@ -408,13 +418,19 @@ def _dispatch_rule(prog, chk, R, gates):
         for node in nodes:
             c = node.e
             meth = SX.short(c['callee'])
-            a = [SX.show(x) for x in SX.real_args(c)]
-            want = ['args[0].qubit']
+            # operands in canonical form (a named local or a check-and-fetch closure is the same operand, K-CANON); the k-th
+            # operand is element k of the evaluated-argument vector, whatever that vector is called
+            a = [canon.text(x) for x in SX.real_args(c)]
+            import re as _re
+            m0 = _re.match(r'^(\w+)\[0\]\.qubit$', a[0] or '') if a else None
+            vec = m0.group(1) if m0 else 'args'
+            vec_ok = bool(m0) and any(v['k'] == 'var' and v.get('name') == vec and 'vector<bloch::runtime::Value>' in (v.get('type') or '') for v in SX.walk(ev.body, into_lambdas=False))
+            want = ['%s[0].qubit' % vec]
             if keys.get(nm, [None, None])[1:2] == ['Float']:
-                want.append('args[1].floatValue')
+                want.append('%s[1].floatValue' % vec)
             elif keys.get(nm, [None, None])[1:2] == ['Qubit']:
-                want.append('args[1].qubit')
-            ok = meth == nm and a == want and len(gates[meth].params) == len(keys.get(nm, []))
+                want.append('%s[1].qubit' % vec)
+            ok = meth == nm and vec_ok and a == want and len(gates[meth].params) == len(keys.get(nm, []))
             chk.ob('R01.4', ev, node.ln, ok, 'branch "%s" calls sim.%s(%s); expected sim.%s(%s) with arity %d' % (nm, meth, ', '.join(a), nm, ', '.join(want), len(keys.get(nm, []))),
                    key='branch:' + nm)
         chk.ob('R01.4', ev, nodes[0].ln, len(nodes) == 1, 'branch "%s" applies the gate exactly once (found %d)' % (nm, len(nodes)), key='once:' + nm, nontrivial=False)
